@@ -871,6 +871,23 @@ def overrun_evidence(prog, s, ctx):
                 if not related and (not grown or 'abs(' in I):
                     return 'the index %s is computed from `%s`, read from the file by %s, and nothing compares it with %s%s' % (
                         I, m_['decl']['name'], inn['callee']['name'], size, ' (for the value 0, abs(%s) - 1 wraps to SIZE_MAX)' % m_['decl']['name'] if 'abs(' in I else '')
+    # E4b: the index is bounded only by a member that this very function fills from the file, and nothing relates that
+    # member (or the index) to the size of the container
+    for l, op, r, _ in facts:
+        if l != I or op not in ('<', '<=') or not re.match(r'^this\.\w+$', r):
+            continue
+        if any((size in (l2, r2)) and (r in (l2, r2) or I in (l2, r2)) for l2, op2, r2, _x in facts):
+            continue
+        src = None
+        for m_ in f.all_nodes({'BinaryOperator'}):
+            if m_['op'] == '=' and uncast(R.render(m_['ch'][0])) == r:
+                for x in [m_['ch'][1]] + list(f.descendants(m_['ch'][1])):
+                    xn = f.nodes[x]
+                    if xn['k'] == 'CXXMemberCallExpr' and xn['callee']['name'] in _codec.READERS and xn['callee'].get('classq') == 'ezc3d::c3d':
+                        src = xn['callee']['name']
+        grown = [c_ for c_ in f.calls() if c_['callee']['name'] in ('resize', 'push_back', 'emplace_back', 'assign') and c_.get('obj') is not None and uncast(R.render(c_['obj'])) == C]
+        if src and not grown:
+            return 'the index runs below %s, which this function reads from the file (%s), and nothing compares it with %s: the file chooses how far the subscript goes' % (r, src, size)
     public = (f.rec.get('access') in ('public', None, 'none')) and not f.rec.get('internal') and '(anonymous namespace)' not in f.qname
     # (not for continuation parameters: a defaulted parameter of a function that calls itself is set by the function, not by its users)
     pidx_ = [p_['id'] for p_ in f.params].index(In['decl']['id']) if In['k'] == 'DeclRefExpr' and In['decl'].get('dk') == 'param' and In['decl'].get('id') in [p_['id'] for p_ in f.params] else None
